@@ -79,6 +79,10 @@ def execute(case, mode):
     rng = rewire.make_rng(case, mode)
     f = getattr(bct, gname)
     out = exc = None
+    st = p.get('scalar_type')
+    if st:
+        # sizes and counts handed over as numpy integer scalars (an element of a parameter array, a shape stored in a narrow type)
+        p = dict(p, **{key: np.dtype(st).type(p[key]) for key in ('n', 'k', 'sz_cl', 'mx_lvl') if key in p and isinstance(p[key], int)})
     try:
         if gname in ('makerandCIJ_und', 'makerandCIJ_dir', 'makeringlatticeCIJ'):
             out = f(p['n'], p['k'], seed=rng)
@@ -201,6 +205,16 @@ class _Scn(object):
                 p['vtype'] = rnd.choice(('int8', 'uint8', 'int16', 'int32', 'uint16'))  # degree vectors in a narrow integer container
             elif x < 0.36:
                 p['vtype'] = 'column'  # the docstring's "Nx1" taken literally
+        if g in ('makerandCIJ_und', 'makerandCIJ_dir', 'makeringlatticeCIJ') and rnd.random() < 0.06:
+            # a size whose pair count n(n-1) does not fit the narrow type it arrives in
+            n = rnd.randint(12, 20)
+            top = n * (n - 1) // (2 if g == 'makerandCIJ_und' else 1)
+            top = min(top, 127)  # the count itself must fit int8 / uint8
+            # (int8 only for the two random generators: makeringlatticeCIJ(np.int8(16), np.int8(97)) raises numpy 2's OverflowError
+            # inside its own arithmetic - loud, and the parameters are documented as int)
+            p = {'n': n, 'k': rnd.randint(0, top), 'scalar_type': rnd.choice(('int8', 'uint8')) if g != 'makeringlatticeCIJ' else 'uint8'}
+        elif 'n' in p and 'inv' not in p and rnd.random() < 0.06 and all(v <= 127 for v in (p.get('n', 0), p.get('k', 0))):
+            p['scalar_type'] = rnd.choice(('int8', 'uint8', 'int16', 'int32', 'int64') if g != 'makeringlatticeCIJ' else ('uint8', 'int16', 'int32', 'int64'))
         budget = 30000 if g != 'maketoeplitzCIJ' else 3000  # an infeasible (n, k, s) would cost 10 001 rejected draws: stop on the draw budget instead
         return {'scn': self.ID, 'routine': g, 'params': p, 'seed': sub, 'policy': rewire.pick_policy(rnd), 'budget': budget, 'trace': None}
 
